@@ -168,7 +168,12 @@ def s55(ctx, prog):
         ins = [a for nm, a, sp in cs if nm == 'insert_back_prioritized']
         good = len(pops) == 1 and pops[0][0] == ('proj', SYM('root'), ('children',)) and len(ins) == 1 and ins[0][1] == SYM('node')
         good = good and len(pushes) == 2 and pushes[0][0] == ('proj', SYM('root'), ('children',)) and owned(pushes[0][1]) and pushes[0][1] == ins[0][0] and pushes[1] == (SYM('root_stack'), SYM('root'))
-        ctx.check(good, 'S5.5', 'open-sequence:insert-into-last-element', 'last-element', 'a non-separator token is inserted into the last element of the open sequence, which is popped and pushed back exactly once (pops %d, pushes %s)' % (len(pops), [fmt(a[1])[:60] for a in pushes]), span=g.span)
+        if not good and not pops and len(ins) == 1 and ins[0][1] == SYM('node'):
+            # in-place form: the last element is edited through `root.children.last_mut()`, nothing is taken out
+            tgt = ins[0][0]
+            in_place = tgt[0] == 'proj' and tgt[2] == ('as Some', '0') and tgt[1][0] == 'app' and tgt[1][1].split('::')[-1].split('#')[0] == 'last_mut' and tgt[1][2] == (('proj', SYM('root'), ('children',)),)
+            good = in_place and pushes == [(SYM('root_stack'), SYM('root'))]
+        ctx.check(good, 'S5.5', 'open-sequence:insert-into-last-element', 'last-element', 'a non-separator token is inserted into the last element of the open sequence, which is popped and pushed back exactly once, or edited in place through last_mut() (pops %d, pushes %s)' % (len(pops), [fmt(a[1])[:60] for a in pushes]), span=g.span)
     ctx.floor('S5.5', 'open_sequence_paths', m, 1)
 
 
